@@ -136,7 +136,7 @@ def _isinst(I, v, t):
     k = numkind(v)
     if n == 'bool':
         return k == 'bool'
-    if n == 'int':
+    if n in ('int', 'Integral'):
         return k in ('int', 'bool')
     if n == 'float':
         return k == 'real'
@@ -242,6 +242,8 @@ def b_bool(I, a, k):
 def b_list(I, a, k):
     if not a:
         return I.st.alloc('clist', [])
+    if isinstance(a[0], Mo.IterV):
+        a = [a[0].seq] + list(a[1:])
     items = Mo.concrete_iter(I, a[0])
     if items is not None:
         return I.st.alloc('clist', list(items))
@@ -305,7 +307,9 @@ def b_iter(I, a, k):
     v = a[0]
     if numkind(v) is not None or v is None or isinstance(v, (Closure, AbsFun, Builtin, SOpaque)):
         raise PyExc('TypeError', 'object is not iterable')
-    return v
+    if isinstance(v, Mo.IterV):
+        return v                # an iterator is its own iterator
+    return Mo.IterV(v)          # a sequence gives a new iterator object:  x is iter(x)  is False
 
 
 class CycleV:
@@ -797,6 +801,55 @@ def LOGf(t):
     return Mo.LOG(t)
 
 
+def _copy_value(I, v, deep, memo):
+    """copy.copy / copy.deepcopy: structural copy with fresh references; internal sharing preserved (memo);
+    numbers, strings, None, functions and classes are returned as they are (immutable / atomic for copy)"""
+    if not isinstance(v, Ref):
+        if isinstance(v, tuple) and deep:
+            return tuple(_copy_value(I, x, deep, memo) for x in v)
+        return v
+    if v in memo:
+        return memo[v]
+    st = I.st
+    if v.kind == 'obj' and v.cls is not None:
+        hook = v.cls.lookup('__deepcopy__' if deep else '__copy__')
+        if hook is not UNDEF:
+            r = I.call(hook, [v] + ([st.alloc('dict', {})] if deep else []), {})
+            memo[v] = r
+            return r
+    cell = st.heap[v]
+    if v.kind == 'clist':
+        r = st.alloc('clist', [], name=v.name, nd=v.nd)
+        memo[v] = r
+        st.heap[r] = [(_copy_value(I, x, deep, memo) if deep else x) for x in cell]
+    elif v.kind in ('slist', 'rows'):
+        r = st.alloc(v.kind, dict(cell), name=v.name, nd=v.nd)
+        memo[v] = r
+    elif v.kind == 'set':
+        r = st.alloc('set', list(cell), name=v.name)
+        memo[v] = r
+    elif v.kind == 'dict':
+        r = st.alloc('dict', {}, name=v.name)
+        memo[v] = r
+        st.heap[r] = {k: (_copy_value(I, x, deep, memo) if deep else x) for k, x in cell.items()}
+    elif v.kind == 'obj':
+        r = st.alloc('obj', {}, name=v.name)
+        r.cls = v.cls
+        memo[v] = r
+        st.heap[r] = {k: (_copy_value(I, x, deep, memo) if deep else x) for k, x in cell.items()}
+    else:
+        raise Unsupported('copy of %r' % (v,))
+    return r
+
+
+def copy_copy(I, a, k):
+    return _copy_value(I, a[0], False, {})
+
+
+def copy_deepcopy(I, a, k):
+    return _copy_value(I, a[0], True, {})
+
+
 _LIB = {}
 
 
@@ -831,6 +884,8 @@ def lib_lookup(I, dotted):
         'random.uniform': Builtin('random.uniform', rnd_uniform),
         'random.randrange': Builtin('random.randrange', rnd_randrange),
         'math.sqrt': Builtin('math.sqrt', lambda I_, a, k: Mo.power(I_, a[0], 0.5)),
+        'copy.copy': Builtin('copy.copy', copy_copy), 'copy.deepcopy': Builtin('copy.deepcopy', copy_deepcopy),
+        'numbers.Integral': TypeTag('Integral'),
         'collections.abc.Callable': TypeTag('Callable'),
         'collections.Callable': TypeTag('Callable'),
         'builtins.abs': Builtin('abs', b_abs),
